@@ -46,9 +46,8 @@ where
       else .ok { st with out := st.out ++ fs.headD [] ++ c.lineSep }
     | .simple | .whitespace =>
       let line := joinD c.delim fs
-      let warn :=
-        if c.js then containsD c.delim fs.flatten          -- fields.join('').indexOf(delim) != -1
-        else countD c.delim line + 1 != fs.length           -- output_line.count(delim) + 1 != len(fields)
+      -- Python: output_line.count(delim) + 1 != len(fields); rbql-js (after its fix): res.split(delim).length != fields.length — the same test
+      let warn := countD c.delim line + 1 != fs.length
       .ok { st with out := st.out ++ line ++ c.lineSep, delimInSimple := st.delimInSimple || warn }
 
 /-- `set_header` followed by `write` of every record (`_write_all`) -/
